@@ -1616,4 +1616,279 @@ Section Cover.
       RK r /\ (forall x, under src x = true -> alookup beqb x (wfp r) = None).
     Proof. apply rekey_loop_spec; [apply RK_init|]. intros x _. apply alookup_fst. Qed.
   End Rekey.
+
+  (* ------------------------------------------------------------------ 2b: Rename *)
+  Lemma rename_inv w p q w' : wf_fs w -> npath p -> npath q -> apply_op w (Rename p q) = Some w' ->
+    exists ep t1, flookup p (w_fs w) = Some ep /\ p <> q /\ under p q = false /\ fisdir (dirname q) (w_fs w) = true /\
+      w' = {| w_fs := frename p q t1; w_next_ino := w_next_ino w |} /\
+      (forall e, In e (w_fs w) -> under q (f_path e) = false) /\
+      ((flookup q (w_fs w) = None /\ t1 = w_fs w) \/
+       (exists v, flookup q (w_fs w) = Some v /\ t1 = fremove q (w_fs w) /\
+          ((f_dir ep = false /\ f_dir v = false) \/ (f_dir ep = true /\ f_dir v = true /\ has_children q (w_fs w) = false)))).
+  Proof.
+    intros W Np Nq H. cbn [apply_op] in H.
+    destruct (flookup p (w_fs w)) as [e|] eqn:El; [|discriminate].
+    destruct (beqb p q) eqn:Epq; [discriminate|]. destruct (under p q) eqn:Eu; [discriminate|].
+    destruct (fisdir (dirname q) (w_fs w)) eqn:Edq; [|discriminate]. cbn in H.
+    apply beqb_neq in Epq. destruct (fisdir_in _ _ Edq) as (dq & Hdq & Edq' & Ddq).
+    assert (Udq : under (f_path dq) q = true) by (rewrite Edq'; now apply under_dirname).
+    exists e. destruct (flookup q (w_fs w)) as [v|] eqn:Elq.
+    - exists (fremove q (w_fs w)).
+      assert (Hleaf : (f_dir e = false /\ f_dir v = false) \/ (f_dir e = true /\ f_dir v = true /\ has_children q (w_fs w) = false)).
+      { destruct (f_dir e), (f_dir v), (has_children q (w_fs w)); cbn in H; try discriminate; auto. }
+      assert (H' : w' = {| w_fs := frename p q (fremove q (w_fs w)); w_next_ino := w_next_ino w |}).
+      { destruct (f_dir e), (f_dir v), (has_children q (w_fs w)); cbn in H; try discriminate; now inversion H. }
+      destruct (flookup_some _ _ _ Elq) as [Hv Ev].
+      repeat split; try assumption.
+      + apply (nothing_below w q dq W Hdq Udq). destruct Hleaf as [[_ Hf]|(_ & _ & Hch)]; [left|now right].
+        intros (x & Hx & Ex & Dx). assert (x = v) by (apply (path_inj (w_fs w)); [apply W| | |congruence]; assumption).
+        congruence.
+      + right. exists v. auto.
+    - exists (w_fs w). injection H as <-. repeat split; try assumption; [|now left].
+      apply (nothing_below w q dq W Hdq Udq). left. intros (x & Hx & Ex & _).
+      apply flookup_none in Elq. apply Elq. rewrite <- Ex. now apply in_map.
+  Qed.
+
+  Lemma read_one_from t r k acc e wp :
+    is_moved_from (k_mask e) = true -> is_ignored (k_mask e) = false -> is_create (k_mask e) = false ->
+    alookup N.eqb (k_wd e) (pfw r) = Some wp ->
+    read_one C t (r, k, acc) e =
+      Done ({| wfp := wfp r; pfw := pfw r; mvf := aset N.eqb (k_cookie e) (src_path_of wp (k_name e)) (mvf r); calls := calls r |},
+            k, acc ++ [raw_ev wp e]).
+  Proof.
+    intros H1 H3 H5 Hp. unfold read_one. rewrite Hp, H1, H3, H5. now rewrite andb_false_r.
+  Qed.
+
+  Definition raw_to (wp : bytes) (e : kraw) : raw :=
+    {| r_wd := k_wd e; r_mask := k_mask e; r_cookie := k_cookie e; r_name := k_name e; r_path := join wp (k_name e) |}.
+
+  Lemma read_one_to_plain t r k acc e wp :
+    is_moved_from (k_mask e) = false -> is_moved_to (k_mask e) = true -> is_ignored (k_mask e) = false ->
+    is_create (k_mask e) = false -> alookup N.eqb (k_wd e) (pfw r) = Some wp ->
+    (alookup N.eqb (k_cookie e) (mvf r) = None \/
+     exists msrc, alookup N.eqb (k_cookie e) (mvf r) = Some msrc /\ alookup beqb msrc (wfp r) = None) ->
+    (c_fix_movein C && c_recursive C && is_directory (k_mask e) && fisdir (src_path_of wp (k_name e)) t) = false ->
+    read_one C t (r, k, acc) e = Done (r, k, acc ++ [raw_to wp e]).
+  Proof.
+    intros H1 H2 H3 H5 Hp Hl Hc. unfold read_one. rewrite Hp, H1, H2, H3, H5. unfold src_path_of in Hc.
+    destruct Hl as [Hl|(msrc & Hl & Hw)]; rewrite Hl; [|rewrite Hw]; rewrite Hc; now rewrite andb_false_r.
+  Qed.
+
+  Lemma read_one_to_rekey t r k acc e wp msrc mwd :
+    is_moved_from (k_mask e) = false -> is_moved_to (k_mask e) = true -> is_ignored (k_mask e) = false ->
+    is_create (k_mask e) = false -> alookup N.eqb (k_wd e) (pfw r) = Some wp ->
+    alookup N.eqb (k_cookie e) (mvf r) = Some msrc -> alookup beqb msrc (wfp r) = Some mwd ->
+    read_one C t (r, k, acc) e =
+      let sp := src_path_of wp (k_name e) in
+      let r' := {| wfp := aset beqb sp mwd (aremove beqb msrc (wfp r)); pfw := aset N.eqb mwd sp (pfw r);
+                   mvf := mvf r; calls := calls r |} in
+      Done ((if c_recursive C then rekey_loop (wfp r') msrc sp r' else r'), k, acc ++ [raw_to wp e]).
+  Proof.
+    intros H1 H2 H3 H5 Hp Hl Hw. unfold read_one. rewrite Hp, H1, H2, H3, H5, Hl, Hw. now rewrite andb_false_r.
+  Qed.
+
+  Lemma read_one_to_movein t r k acc e wp :
+    is_moved_from (k_mask e) = false -> is_moved_to (k_mask e) = true -> is_ignored (k_mask e) = false ->
+    is_create (k_mask e) = false -> alookup N.eqb (k_wd e) (pfw r) = Some wp ->
+    (alookup N.eqb (k_cookie e) (mvf r) = None \/
+     exists msrc, alookup N.eqb (k_cookie e) (mvf r) = Some msrc /\ alookup beqb msrc (wfp r) = None) ->
+    (c_fix_movein C && c_recursive C && is_directory (k_mask e) && fisdir (src_path_of wp (k_name e)) t) = true ->
+    read_one C t (r, k, acc) e =
+      let sp := src_path_of wp (k_name e) in
+      let '(r', k') := add_dirs C r k t (sp :: walk_dirs t sp) in Done (r', k', acc ++ [raw_to wp e]).
+  Proof.
+    intros H1 H2 H3 H5 Hp Hl Hc. unfold read_one. rewrite Hp, H1, H2, H3, H5. unfold src_path_of in *.
+    destruct Hl as [Hl|(msrc & Hl & Hw)]; rewrite Hl; [|rewrite Hw]; rewrite Hc;
+      destruct (add_dirs C r k t _) as [r' k']; now rewrite andb_false_r.
+  Qed.
+
+  (* the two kernel events of a rename *)
+  Definition mv_from (kw : kwatch) (isd : bool) (c : N) (n : bytes) := kev kw IN_MOVED_FROM isd c n.
+  Definition mv_to (kw : kwatch) (isd : bool) (c : N) (n : bytes) := kev kw IN_MOVED_TO isd c n.
+
+  Lemma rename_kernel k t p q : k_queue k = [] ->
+    (forall kw, In kw (k_watches k) -> N.land IN_MOVED_FROM (kw_mask kw) <> 0%N /\ N.land IN_MOVED_TO (kw_mask kw) <> 0%N) ->
+    let c := k_next_cookie k in let isd := fisdir p t in
+    let k0 := {| k_watches := k_watches k; k_next_wd := k_next_wd k; k_queue := k_queue k; k_next_cookie := c + 1 |} in
+    let k2 := knotify (knotify k0 (ino_of t (dirname p)) IN_MOVED_FROM isd c (basename p))
+                      (ino_of t (dirname q)) IN_MOVED_TO isd c (basename q) in
+    k2 = {| k_watches := k_watches k; k_next_wd := k_next_wd k;
+            k_queue := match watch_of_ino k (ino_of t (dirname p)) with Some kw => [mv_from kw isd c (basename p)] | None => [] end ++
+                       match watch_of_ino k (ino_of t (dirname q)) with Some kw => [mv_to kw isd c (basename q)] | None => [] end;
+            k_next_cookie := c + 1 |}.
+  Proof.
+    intros Hq Hm c isd k0 k2. subst k2.
+    assert (W0 : forall i, watch_of_ino k0 i = watch_of_ino k i) by (intros i; now apply watch_of_ino_ext).
+    destruct (watch_of_ino k (ino_of t (dirname p))) as [kwp|] eqn:Ep.
+    - destruct (watch_of_ino_some _ _ _ Ep) as [Hkp _]. destruct (Hm kwp Hkp) as [Hf _].
+      rewrite (knotify_watched k0 _ _ _ _ _ kwp) by (rewrite ?W0; assumption).
+      cbn [k0 k_queue]. rewrite Hq, kpush_nil.
+      destruct (watch_of_ino k (ino_of t (dirname q))) as [kwq|] eqn:Eq.
+      + destruct (watch_of_ino_some _ _ _ Eq) as [Hkq _]. destruct (Hm kwq Hkq) as [_ Ht].
+        rewrite (knotify_watched _ _ _ _ _ _ kwq); [|rewrite (watch_of_ino_ext k); [exact Eq|reflexivity] | exact Ht].
+        cbn [kset_queue k_queue k_watches k_next_wd k_next_cookie k0].
+        rewrite (kpush_snoc [] (kev kwp IN_MOVED_FROM isd c (basename p))) by (cbn; destruct isd; vm_compute; discriminate).
+        reflexivity.
+      + rewrite knotify_unwatched by (rewrite (watch_of_ino_ext k); [exact Eq|reflexivity]). reflexivity.
+    - rewrite (knotify_unwatched k0) by (rewrite W0; exact Ep).
+      destruct (watch_of_ino k (ino_of t (dirname q))) as [kwq|] eqn:Eq.
+      + destruct (watch_of_ino_some _ _ _ Eq) as [Hkq _]. destruct (Hm kwq Hkq) as [_ Ht].
+        rewrite (knotify_watched k0 _ _ _ _ _ kwq) by (rewrite ?W0; assumption).
+        cbn [k0 k_queue]. rewrite Hq, kpush_nil. reflexivity.
+      + rewrite knotify_unwatched by (rewrite W0; exact Eq). subst k0. now rewrite Hq.
+  Qed.
+
+  Lemma mvf_aset_lt (m : list (N * bytes)) c p (b : N) : (forall c' x, alookup N.eqb c' m = Some x -> (c' < c)%N) ->
+    forall c' x, alookup N.eqb c' (aset N.eqb c p m) = Some x -> (c' < c + 1)%N.
+  Proof.
+    intros H c' x Hx. destruct (N.eq_dec c' c) as [->|Hne]; [lia|]. rewrite pset_neq in Hx by assumption.
+    apply H in Hx. lia.
+  Qed.
+
+  Lemma scope_rk p q x : scope q -> c_recursive C = true -> scope x -> scope (rk p q x).
+  Proof.
+    intros Sq Hrec Sx. unfold rk. destruct (beqb x p); [exact Sq|]. destruct (under p x) eqn:E; [|exact Sx].
+    apply under_spec in E as [rest ->]. rewrite skipn_app_length. now apply scope_child.
+  Qed.
+
+  (* Rename of a directory inside the tree: the moved directory and every directory below it carry the new prefix *)
+  Theorem step_rename_dir_inside w k r p q w' ep : RSync w k r -> npath p -> npath q -> c_recursive C = true ->
+    N.land IN_MOVED_FROM (c_mask C) <> 0%N -> N.land IN_MOVED_TO (c_mask C) <> 0%N ->
+    apply_op w (Rename p q) = Some w' ->
+    flookup p (w_fs w) = Some ep -> f_dir ep = true -> scope p -> p <> root -> scope q -> flookup q (w_fs w) = None ->
+    let k1 := kernel_op k (w_fs w) (Rename p q) in
+    exists r' k' evs, read_batch C (w_fs w') (r, drainq k1, []) (k_queue k1) = Done (r', k', evs) /\ RSync w' k' r'.
+  Proof.
+    intros S Np Nq Hrec Hmf Hmt Ha Elp Dep Sp Hpr Sq Elq k1. destruct S as [W Hr I Cv Hq].
+    assert (W' : wf_fs w') by exact (wf_apply_op w (Rename p q) w' W (conj Np Nq) Ha).
+    destruct (rename_inv w p q w' W Np Nq Ha) as (ep' & t1 & Elp' & Hne & Hupq & Edq & -> & Hbelow & Hq1).
+    assert (ep' = ep) by congruence. subst ep'.
+    destruct Hq1 as [[_ ->]|(v & Ev & _)]; [|congruence]. cbn [w_fs] in *.
+    destruct (flookup_some _ _ _ Elp) as [Hep Eep].
+    assert (Hqr : q <> root).
+    { intros E. destruct Hr as (er & Her & Eer & _). apply flookup_none in Elq. apply Elq. rewrite E, <- Eer. now apply in_map. }
+    destruct (scope_parent p Np Sp Hpr) as [Sdp _]. destruct (scope_parent q Nq Sq Hqr) as [Sdq _].
+    assert (Urp : under root p = true).
+    { unfold scope in Sp. rewrite Hrec in Sp. destruct Sp as [Sp|Sp]; [contradiction | exact Sp]. }
+    assert (Hupr : under p root = false) by now apply under_antisym.
+    destruct Hr as (er & Her & Eer & Der).
+    (* the two parents *)
+    assert (Hdp : isdir_in (dirname p) (w_fs w)).
+    { rewrite <- Eep. apply (wf_parent w W ep er Hep Her). now rewrite Eep, Eer. }
+    destruct Hdp as (dp & Hdp & Edp & Ddp). destruct (fisdir_in _ _ Edq) as (dq & Hdq & Edq' & Ddq).
+    rewrite <- Edp in Sdp. rewrite <- Edq' in Sdq.
+    destruct (Cv dp Hdp Ddp Sdp) as (kwp & Cwp & Cpp & Cfp). destruct (Cv dq Hdq Ddq Sdq) as (kwq & Cwq & Cpq & Cfq).
+    destruct (Cv ep Hep Dep) as (kwe & Cwe & Cpe & Cfe); [now rewrite Eep|]. rewrite Eep in Cpe, Cfe.
+    assert (Ip : ino_of (w_fs w) (dirname p) = f_ino dp) by (unfold ino_of; rewrite <- Edp; now rewrite (flookup_in _ dp (wf_paths w W) Hdp)).
+    assert (Iq : ino_of (w_fs w) (dirname q) = f_ino dq) by (unfold ino_of; rewrite <- Edq'; now rewrite (flookup_in _ dq (wf_paths w W) Hdq)).
+    assert (Fq : fisdir q (w_fs w) = false) by (unfold fisdir; now rewrite Elq).
+    assert (Fp : fisdir p (w_fs w) = true) by (unfold fisdir; now rewrite Elp).
+    subst k1. cbn [kernel_op]. rewrite Fq.
+    rewrite rename_kernel; [|exact Hq|].
+    2:{ intros kw Hk. rewrite (wi_mask _ _ _ I kw Hk). now split. }
+    rewrite Ip, Iq, Cwp, Cwq, Fp. cbn [k_queue app].
+    set (c := k_next_cookie k).
+    set (k0 := drainq _).
+    destruct (npath_parts p Np) as (Ep & Gdp & Vbp & Jp). destruct (npath_parts q Nq) as (Eq & Gdq & Vbq & Jq).
+    assert (SPp : src_path_of (dirname p) (basename p) = p) by (unfold src_path_of; destruct (basename p); [discriminate Vbp | exact Jp]).
+    assert (SPq : src_path_of (dirname q) (basename q) = q) by (unfold src_path_of; destruct (basename q); [discriminate Vbq | exact Jq]).
+    cbn [read_batch].
+    rewrite (read_one_from _ _ _ _ _ (dirname p)); try (vm_compute; reflexivity); [|cbn [mv_from kev k_wd]; now rewrite Cpp, Edp].
+    cbn [mv_from kev k_cookie k_name]. rewrite SPp.
+    set (r1 := {| wfp := wfp r; pfw := pfw r; mvf := aset N.eqb c p (mvf r); calls := calls r |}).
+    rewrite (read_one_to_rekey _ r1 _ _ _ (dirname q) p (kw_wd kwe)); try (vm_compute; reflexivity);
+      [|cbn [mv_to kev k_wd r1 pfw]; now rewrite Cpq, Edq' | cbn [mv_to kev k_cookie r1 mvf]; apply pset_eq | exact Cfe].
+    cbn [mv_to kev k_name]. rewrite SPq, Hrec. cbv zeta.
+    set (mwd := kw_wd kwe).
+    set (r' := {| wfp := aset beqb q mwd (aremove beqb p (wfp r1)); pfw := aset N.eqb mwd q (pfw r1); mvf := mvf r1; calls := calls r1 |}).
+    eexists _, _, _. split; [reflexivity|].
+    (* bindings of r' *)
+    assert (B' : forall x wd, alookup beqb x (wfp r') = Some wd ->
+                (x = q /\ wd = mwd) \/ (x <> q /\ x <> p /\ alookup beqb x (wfp r) = Some wd)).
+    { intros x wd Hx. cbn [r' wfp r1] in Hx. destruct (bytes_eq_dec x q) as [->|Hxq].
+      - rewrite wset_eq in Hx. left. split; congruence.
+      - rewrite wset_neq in Hx by assumption. destruct (bytes_eq_dec x p) as [->|Hxp]; [now rewrite wrem_eq in Hx|].
+        rewrite wrem_neq in Hx by assumption. right. auto. }
+    assert (B'' : forall x wd, x <> q -> x <> p -> alookup beqb x (wfp r) = Some wd -> alookup beqb x (wfp r') = Some wd).
+    { intros x wd Hxq Hxp Hx. cbn [r' wfp r1]. rewrite wset_neq by assumption. now rewrite wrem_neq. }
+    assert (Gp := npath_gpath _ Np).
+    assert (Hsd : forall rest, under p (q ++ sep :: rest) = false).
+    { intros rest. apply under_disjoint; try assumption. rewrite <- Eep. now apply Hbelow. }
+    assert (K1 : forall x wd, alookup beqb x (wfp r') = Some wd -> under q x = false).
+    { intros x wd Hx. destruct (B' x wd Hx) as [[-> _]|(_ & _ & Hx')]; [apply under_irrefl|].
+      destruct (tight_entry w k r x wd I Hx') as (e & _ & He & _ & _ & <- & _). now apply Hbelow. }
+    assert (K2 : forall x y wd, alookup beqb x (wfp r') = Some wd -> alookup beqb y (wfp r') = Some wd -> x = y).
+    { intros x y wd Hx Hy.
+      destruct (B' x wd Hx) as [[-> Ex]|(Nxq & Nxp & Hx')]; destruct (B' y wd Hy) as [[-> Ey]|(Nyq & Nyp & Hy')]; try reflexivity.
+      - subst wd. exfalso. apply Nyp. destruct (wi_tight _ _ _ I y mwd Hy') as [_ Py]. unfold mwd in Py. congruence.
+      - subst wd. exfalso. apply Nxp. destruct (wi_tight _ _ _ I x mwd Hx') as [_ Px]. unfold mwd in Px. congruence.
+      - destruct (wi_tight _ _ _ I x wd Hx') as [_ Px]. destruct (wi_tight _ _ _ I y wd Hy') as [_ Py]. congruence. }
+    destruct (rekey_all p q (proj1 Gp) Hsd r' K1 K2) as [J T].
+    set (r'' := rekey_loop (wfp r') p q r') in *.
+    (* the facts about every covered directory *)
+    assert (F : forall e kw, In e (w_fs w) -> f_dir e = true -> scope (f_path e) -> cov k r e kw ->
+                alookup beqb (rk p q (f_path e)) (wfp r'') = Some (kw_wd kw) /\
+                alookup N.eqb (kw_wd kw) (pfw r'') = Some (rk p q (f_path e))).
+    { intros e kw He De Se (Cw & Cp & Cf).
+      assert (Hxq : f_path e <> q).
+      { intros E. apply flookup_none in Elq. apply Elq. rewrite <- E. now apply in_map. }
+      destruct (bytes_eq_dec (f_path e) p) as [Exp|Nxp].
+      - assert (e = ep) by (apply (path_inj (w_fs w)); [apply W| | |]; congruence). subst e.
+        assert (kw = kwe) by congruence. subst kw. rewrite Exp, rk_self. fold mwd.
+        assert (Hb : alookup beqb q (wfp r') = Some mwd) by (cbn [r' wfp]; apply wset_eq).
+        split.
+        + destruct (j2 _ _ _ _ J q mwd Hb) as [Hs|(Hu & _)]; [exact Hs | congruence].
+        + rewrite (j3 _ _ _ _ J); [cbn [r' pfw]; apply pset_eq|].
+          intros x0 Hu Hx0. assert (x0 = q) by (eapply K2; eauto). subst x0. congruence.
+      - assert (Hb : alookup beqb (f_path e) (wfp r') = Some (kw_wd kw)) by now apply B''.
+        destruct (under p (f_path e)) eqn:Eu.
+        + destruct (j2 _ _ _ _ J _ _ Hb) as [Hs|(_ & _ & Hm & Hp)]; [rewrite T in Hs by assumption; discriminate | now split].
+        + rewrite rk_other by assumption. split.
+          * destruct (j2 _ _ _ _ J _ _ Hb) as [Hs|(Hu & _)]; [exact Hs | congruence].
+          * rewrite (j3 _ _ _ _ J).
+            -- cbn [r' pfw r1]. rewrite pset_neq; [exact Cp|]. intros E. apply Nxp.
+               unfold mwd in E. rewrite E in Cp. congruence.
+            -- intros x0 Hu Hx0. assert (x0 = f_path e) by (eapply K2; eauto). subst x0. congruence. }
+    assert (Hmv : mvf r'' = aset N.eqb c p (mvf r)) by (rewrite (j5 _ _ _ _ J); reflexivity).
+    assert (Hren_root : ren p q er = er).
+    { unfold ren. rewrite Eer. destruct (beqb root p) eqn:E; [apply beqb_eq in E; congruence|]. now rewrite Hupr. }
+    constructor.
+    - exact W'.
+    - exists er. cbn [w_fs]. rewrite frename_map. split; [|auto]. rewrite <- Hren_root. now apply in_map.
+    - cbn [w_fs]. rewrite frename_map. constructor; cbn [k0 drainq kset_queue k_watches k_next_wd k_next_cookie]; try apply I.
+      + intros kw Hk. destruct (wi_exact _ _ _ I kw Hk) as (e & He & De & Se & Ie & Pe & We).
+        assert (Ce : cov k r e kw).
+        { split; [|split]; try assumption. apply watch_of_ino_in; [apply I | assumption | congruence]. }
+        destruct (F e kw He De Se Ce) as [F1 F2].
+        exists (ren p q e). rewrite ren_path, ren_dir, ren_ino. repeat split; try assumption.
+        * now apply in_map.
+        * now apply scope_rk.
+      + intros y wd Hy. destruct (j1 _ _ _ _ J y wd Hy) as (x0 & H0 & Hy0).
+        destruct (B' x0 wd H0) as [[-> ->]|(Nq0 & Np0 & H0')].
+        * assert (y = q).
+          { destruct Hy0 as [->|[Hu _]]; [reflexivity | congruence]. }
+          subst y. destruct (watch_of_ino_some _ _ _ Cwe) as [Hke _].
+          split; [exists kwe; now split|]. assert (Ce : cov k r ep kwe) by (split; [|split]; now rewrite ?Eep).
+          destruct (F ep kwe Hep Dep) as [_ F2]; [now rewrite Eep | exact Ce|]. rewrite Eep, rk_self in F2. exact F2.
+        * destruct (tight_entry w k r x0 wd I H0') as (e & kw & He & De & Se & Ee & Hk & Ewd & Ei).
+          destruct (wi_tight _ _ _ I x0 wd H0') as [_ P0].
+          assert (Ce : cov k r e kw).
+          { split; [|split]; rewrite ?Ee, ?Ewd; try assumption. apply watch_of_ino_in; [apply I | assumption | congruence]. }
+          destruct (F e kw He De Se Ce) as [F1 F2]. rewrite Ee, Ewd in F1, F2.
+          split; [exists kw; now split|].
+          destruct Hy0 as [->|[Hu ->]]; [|exact F2].
+          destruct (under p x0) eqn:Eu; [rewrite T in Hy by assumption; discriminate|].
+          now rewrite rk_other in F2 by assumption.
+      + rewrite Hmv. apply mvf_aset_lt; [exact 0%N|]. apply I.
+    - cbn [w_fs]. rewrite frename_map. intros e' He' De' Se'. apply in_map_iff in He' as (e & <- & He).
+      rewrite ren_dir in De'. rewrite ren_path in Se'.
+      assert (Se : scope (f_path e)).
+      { unfold rk in Se'. destruct (beqb (f_path e) p) eqn:E1; [apply beqb_eq in E1; now rewrite E1|].
+        destruct (under p (f_path e)) eqn:E2; [|exact Se']. unfold scope. rewrite Hrec. right.
+        eapply under_trans; eassumption. }
+      destruct (Cv e He De' Se) as (kw & Ce). destruct (F e kw He De' Se Ce) as [F1 F2].
+      exists kw. unfold cov. rewrite ren_ino, ren_path. split; [|split]; try assumption.
+      destruct Ce as (Cw & _). rewrite (watch_of_ino_ext k k0); [exact Cw | reflexivity].
+    - reflexivity.
+  Qed.
 End Cover.
